@@ -579,8 +579,65 @@ pub fn corr(seed: u64, n: u64) {
         println!("{}", line);
         println!("C02 shadow R {} | {}", hits_str(&sh), hits_str(&real));
     }
+    corr_overlaps(&mut rng, &mut stats, n);
     stats.print(PROP, "corr");
 }
+
+/// `solve_curve_for_t_along_axis` (behind `t_for_point`) and `overlapping_region` against their generated definitions, bit for bit.
+/// What ends in the external `roots` crate is handed over as a table: the answers of `solve_basis_for_t` per dimension for the
+/// first, the four `t_for_point` answers `overlapping_region` can ask for the second.
+fn corr_overlaps(rng: &mut Rng, stats: &mut Stats, n: u64) {
+    use flo_curves::bezier::{solve_basis_for_t, solve_curve_for_t_along_axis, overlapping_region};
+    let hc = |c: &Cubic| c.iter().map(|p| format!("{} {}", hx(p.0), hx(p.1))).collect::<Vec<_>>().join(" ");
+    let opt = |o: Option<f64>| match o { None => "#0".to_string(), Some(t) => format!("#1 {}", hx(t)) };
+    let rc = |rng: &mut Rng| -> Cubic { let g = |rng: &mut Rng| if rng.i(4) == 0 { Coord2((rng.i(41) as f64 - 20.0) * 2.5, (rng.i(41) as f64 - 20.0) * 2.5) } else { Coord2(rng.r(-50.0, 50.0), rng.r(-50.0, 50.0)) }; [g(rng), g(rng), g(rng), g(rng)] };
+    for it in 0..(n / 2 + 200) {
+        let c = rc(rng);
+        let cv = to_curve(&c);
+        let base = match rng.i(6) { 0 => c[0], 1 => c[3], _ => cv.point_at_pos(rng.f()) };
+        let off = match rng.i(7) { 0 | 1 => 0.0, 2 => 1e-12, 3 => 5e-10, 4 => 1e-4, 5 => 0.03, _ => 0.07 };
+        let ang = rng.r(0.0, 6.283);
+        let p = Coord2(base.0 + off * ang.cos(), base.1 + off * ang.sin());
+        let acc = [0.05, 0.001, 0.01, 1e-9][(it % 4) as usize];
+        let rx = solve_basis_for_t(c[0].0, c[1].0, c[2].0, c[3].0, p.0);
+        let ry = solve_basis_for_t(c[0].1, c[1].1, c[2].1, c[3].1, p.1);
+        let res = solve_curve_for_t_along_axis(&cv, &p, acc);
+        let line = format!("C02 tfp R {} {} {} {} #{} {} #{} {} | {}", hc(&c), hx(p.0), hx(p.1), hx(acc), rx.len(), hxs(&rx), ry.len(), hxs(&ry), opt(res));
+        stats.case(&format!("tfp {}", it), res.is_some());
+        stats.count(if res.is_some() { "tfp.some" } else { "tfp.none" });
+        println!("{}", line);
+    }
+    let sub = |c: &Cubic, a: f64, b: f64| -> Cubic { let cv = to_curve(c); let s = cv.section(a, b); let (p1, p2) = s.control_points(); [s.start_point(), p1, p2, s.end_point()] };
+    let rev = |c: &Cubic| -> Cubic { [c[3], c[2], c[1], c[0]] };
+    for it in 0..(n / 2 + 200) {
+        let c = rc(rng);
+        let line_like = rng.i(5) == 0;
+        let c = if line_like { let (p, q) = (c[0], c[3]); let (u, v) = (rng.r(-0.3, 1.3), rng.r(-0.3, 1.3)); [p, p + (q - p) * u, p + (q - p) * v, q] } else { c };
+        let kind = rng.i(9);
+        let (mut a, mut b): (Cubic, Cubic) = match kind {
+            0 => (c, c),
+            1 => { let (x, y) = (rng.r(0.0, 0.5), rng.r(0.5, 1.0)); (c, sub(&c, x, y)) }
+            2 => { let (x, y) = (rng.r(0.0, 0.5), rng.r(0.5, 1.0)); (sub(&c, x, y), c) }
+            3 => { let (x, y, u, v) = (rng.r(0.0, 0.3), rng.r(0.5, 0.8), rng.r(0.3, 0.5), rng.r(0.8, 1.0)); (sub(&c, x, y), sub(&c, u, v)) }
+            4 => { let m = rng.r(0.2, 0.8); (sub(&c, 0.0, m), sub(&c, m, 1.0)) }
+            5 => { let (x, y, u, v) = (rng.r(0.0, 0.3), rng.r(0.3, 0.45), rng.r(0.55, 0.7), rng.r(0.7, 1.0)); (sub(&c, x, y), sub(&c, u, v)) }
+            6 => { let d = rc(rng); (c, [c[3], d[1], d[2], d[3]]) }
+            7 => { let mut d = sub(&c, rng.r(0.0, 0.4), rng.r(0.6, 1.0)); let k = 1 + rng.i(2) as usize; d[k] = d[k] + Coord2(rng.r(-0.01, 0.01), rng.r(-0.01, 0.01)); (c, d) }
+            _ => (c, rc(rng)),
+        };
+        if rng.i(3) == 0 { a = rev(&a); }
+        if rng.i(3) == 0 { b = rev(&b); }
+        let (ca, cb) = (to_curve(&a), to_curve(&b));
+        let q = [ca.t_for_point(&b[0]), ca.t_for_point(&b[3]), cb.t_for_point(&a[0]), cb.t_for_point(&a[3])];
+        let res = overlapping_region(&ca, &cb);
+        let mut line = format!("C02 ovl R {} {} {} {} {} {} |", hc(&a), hc(&b), opt(q[0]), opt(q[1]), opt(q[2]), opt(q[3]));
+        match res { None => line += " #0", Some(((p, r), (u, v))) => line += &format!(" #1 {}", hxs(&[p, r, u, v])) }
+        stats.case(&format!("ovl {} {}", kind, it), res.is_some());
+        stats.count(&format!("ovl.kind{}.{}{}", kind, if res.is_some() { "some" } else { "none" }, if line_like { ".line" } else { "" }));
+        println!("{}", line);
+    }
+}
+
 
 /// (diagnostic, not part of a check: `fvharness probe C02 <seed> <n>`) how often does the loop end through its own convergence
 /// test for curves that fill the box, have cusps or tight bends, and how far apart are the two reported points then
